@@ -14,6 +14,7 @@ import NV.C16.ProofRoundtrip
 import NV.C16.ProofObject
 import NV.C16.Tree
 import NV.C16.ProofTree
+import NV.C16.ProofHash
 
 namespace NV.C16.Props
 
@@ -58,16 +59,22 @@ references come back as 0 (`erase`).
 
 THE DOMAIN, explicitly (`savable`, RtDefs.lean — a decidable check on the value alone):
   * integers: all 64-bit values;  strings: every byte string without NUL (CR, `"`, `\`, invalid UTF-8 included);
-  * arrays up to MaxArraySize elements, classes, mappings, empty containers, ANY nesting depth, object references;
-  * mapping keys: anything but floats (two float keys that print alike collapse — open finding K5, witness
-    `Witness.float_keys_collapse`), integer / string / object keys pairwise different (true of every real mapping);
+  * arrays up to MaxArraySize elements, classes, mappings, empty containers, object references;
+  * nesting: whatever `save_variable` accepts (`hd`: svalue_save_size did not raise "nested too deep", i.e. at most
+    MAX_SAVE_SVALUE_DEPTH levels).  Since the nesting fix restore REFUSES deeper text (`restore_nesting_bounded`), so
+    the limit is part of the statement; before, restore followed any depth — and overflowed the C stack on
+    "({({({..." (a 600 KB text), found this round;
+  * mapping keys: in THIS statement anything but floats, integer / string / object keys pairwise different (true of every
+    real mapping); float keys whose saved texts are pairwise different are covered by `roundtrip_float_keys` below
+    (two float keys that print alike collapse — open finding K5, witness `Witness.float_keys_collapse`);
   * floats: no condition on the value; `FloatsOK F v` is the stated contract of the float parameter (`FloatOK`: the
     saved text is a number token that `parse_numeric` reads back to a float with the same saved text), which the
     correspondence run checks on every generated double incl. ±0, subnormals, infinities and NaN.
 Before round 2 the domain also excluded CR (K1), inf/nan (K2), non-UTF-8 bytes (K3), subnormals (K4): repaired. -/
-theorem roundtrip (F : FloatOps α) (mb : MbLen) (v : Value α) (hs : savable v = true) (hf : FloatsOK F v) :
+theorem roundtrip (F : FloatOps α) (mb : MbLen) (v : Value α) (hs : savable v = true) (hf : FloatsOK F v)
+    (hd : saveVariable F v ≠ SaveOut.tooDeep) :
     ∃ v', restoreVariable F mb (save F v) = RvOut.value v' ∧ Equiv F (erase v) v' :=
-  NV.C16.roundtrip F mb v hs hf
+  NV.C16.roundtrip F mb v hs hf hd
 
 /-- a deeply nested value of the domain: array ∋ mapping (string key with `"` CR LF `\` 0xff ↦ class ∋ array ∋
 mapping (INT64_MIN ↦ array ∋ object reference, empty string), float; 7 ↦ empty mapping), INT64_MAX -/
@@ -75,7 +82,45 @@ example : savable NV.C16.deepExample = true := by decide
 
 example (mb : MbLen) : ∃ v', restoreVariable NV.C16.rtF mb (save NV.C16.rtF NV.C16.deepExample) = RvOut.value v' ∧
     Equiv NV.C16.rtF (erase NV.C16.deepExample) v' :=
-  roundtrip NV.C16.rtF mb NV.C16.deepExample (by decide) NV.C16.deepExample_floatsOK
+  roundtrip NV.C16.rtF mb NV.C16.deepExample (by decide) NV.C16.deepExample_floatsOK NV.C16.deepExample_withinDepth
+
+/-- **Round trip, float keys included.**  The same statement on the inductive domain `Savable F v` (LemmasRt.lean): as
+`savable` + `FloatsOK`, except that the keys of a mapping only have to STAY DIFFERENT KEYS (`KeysDistinct`: whatever
+values equal to two keys up to `Equiv` come back, msameval tells them apart).  `keys_distinct_with_float_keys` gives that
+for float keys whose saved texts are pairwise different — finding K5 is exactly the case where they are not — under the
+`==` contract `EqPrintOK` for the floats that print like those keys (true of IEEE `==` unless 0.0 and -0.0 are both
+keys, which no mapping holds).  Non-vacuity: `floatKeyExample` (two float keys, an integer and a string key). -/
+theorem roundtrip_float_keys (F : FloatOps α) (mb : MbLen) (v : Value α) (hs : Savable F v)
+    (hd : saveVariable F v ≠ SaveOut.tooDeep) :
+    ∃ v', restoreVariable F mb (save F v) = RvOut.value v' ∧ Equiv F (erase v) v' := by
+  refine NV.C16.roundtrip_ind F mb v hs ?_
+  unfold saveVariable at hd
+  cases h : saveSize F 0 v with
+  | none => simp [h] at hd
+  | some n => rfl
+
+theorem keys_distinct_with_float_keys (F : FloatOps α) (ks : List (Value α))
+    (hn : (ks.filterMap (keyTagF F)).Nodup) (hc : EqPrintOK F ks) : KeysDistinct F ks :=
+  NV.C16.keysDistinct_of_tagsF F ks hn hc
+
+example (mb : MbLen) : ∃ v', restoreVariable NV.C16.rtF2 mb (save NV.C16.rtF2 NV.C16.floatKeyExample) = RvOut.value v' ∧
+    Equiv NV.C16.rtF2 (erase NV.C16.floatKeyExample) v' :=
+  roundtrip_float_keys NV.C16.rtF2 mb NV.C16.floatKeyExample NV.C16.floatKeyExample_savable
+    NV.C16.floatKeyExample_withinDepth
+
+/-- **The C stack use of restore is bounded**: an activation of restore_internal_size at a nesting level beyond
+MAX_SAVE_SVALUE_DEPTH refuses at once, for every text; every recursive call passes `nest + 1`; the value pass
+(restore_array / restore_mapping / restore_class) recurses only where the pre-pass succeeded. -/
+theorem restore_nesting_bounded (mb : MbLen) (fuel nest : Nat) (isMap idx : Bool) (s : List Nat) (size : Nat)
+    (zs : List Nat) (h : nest > maxDepth) : preD mb fuel nest false isMap idx s size zs = none :=
+  NV.C16.Total.preD_refuses_beyond_limit mb fuel nest isMap idx s size zs h
+
+/-- the nesting test only adds refusals: a text the pre-pass as coded accepts is accepted, with the same element
+counts, by the pre-pass without the test — which is what `restore_total` is proved through -/
+theorem nesting_test_only_refuses (mb : MbLen) (fuel nest : Nat) (top isMap idx : Bool) (s : List Nat) (size : Nat)
+    (zs : List Nat) (out : PreOut) (h : preD mb fuel nest top isMap idx s size zs = some out) :
+    pre mb fuel top isMap idx s size zs = some out :=
+  NV.C16.Total.preD_pre mb fuel nest top isMap idx s size zs out h
 
 /-- **safe_restore_svalue keeps the old value on every error.** -/
 theorem safe_restore_keeps_old_on_error (F : FloatOps α) (mb : MbLen) (t : List Nat) (old : Value α)
@@ -94,6 +139,12 @@ theorem save_atomic (chunks : List (List Nat)) (old : Option (List Nat)) (k : Na
     ((FS.mk old none).run ((saveScript chunks none).1.take k)).file = old ∨
     ((FS.mk old none).run ((saveScript chunks none).1.take k)).file = some chunks.flatten :=
   NV.C16.save_atomic chunks old k
+
+/-- ... also when the crash falls INSIDE a call (a line half written, a buffer half flushed: `FS.partialStep`) -/
+theorem save_atomic_partial (chunks : List (List Nat)) (old : Option (List Nat)) (k : Nat) (c : Call) (d' : List Nat) :
+    (((FS.mk old none).run ((saveScript chunks none).1.take k)).partialStep c d').file = old ∨
+    (((FS.mk old none).run ((saveScript chunks none).1.take k)).partialStep c d').file = some chunks.flatten :=
+  NV.C16.save_atomic_partial chunks old k c d'
 
 /-- a save that runs to its end leaves exactly the new contents and no temporary -/
 theorem save_complete (chunks : List (List Nat)) (old : Option (List Nat)) :
@@ -172,24 +223,26 @@ the same layout whose variables currently are `live`: static variables keep thei
 variable holds the saved value (equal up to `Equiv`, object references as 0).  Domain `objSavable` (decidable):
 variable names are identifiers and PAIRWISE DIFFERENT (two variables of one name at different inheritance levels are
 not restored correctly: open finding K6, `Witness.same_name_variables`), non-static values in the domain of
-`roundtrip`. -/
+`roundtrip`, incl. `hdp`: no variable nested too deep, i.e. the save_object was not refused. -/
 theorem object_roundtrip (F : FloatOps α) (mb : MbLen) (prog : List Nat) (z : Bool) (vars live : List (Var α))
     (hprog : ∀ b ∈ prog, b ≠ 10 ∧ b ≠ 0) (hs : objSavable vars = true)
     (hf : ∀ v ∈ vars, v.isStatic = false → FloatsOK F v.val)
+    (hdp : ∀ v ∈ vars, v.isStatic = false → saveVariable F v.val ≠ SaveOut.tooDeep)
     (hlay : live.map (·.name) = vars.map (·.name) ∧ live.map (·.isStatic) = vars.map (·.isStatic)) :
     ∃ res, restoreObject F mb false (some (saveFileText F prog z vars)) live = (1, RoOut.done res) ∧
       ObjRestored F vars live res :=
-  NV.C16.object_roundtrip F mb prog z vars live hprog hs hf hlay
+  NV.C16.object_roundtrip F mb prog z vars live hprog hs hf hdp hlay
 
 /-- restore_object(file, 1) (noclear): as `object_roundtrip`, except that a non-static variable the save did not
 write (no save_zeros, value 0) keeps its LIVE value instead of becoming 0 (`ObjRestoredNC.kept`) -/
 theorem object_roundtrip_noclear (F : FloatOps α) (mb : MbLen) (prog : List Nat) (z : Bool)
     (vars live : List (Var α)) (hprog : ∀ b ∈ prog, b ≠ 10 ∧ b ≠ 0) (hs : objSavable vars = true)
     (hf : ∀ v ∈ vars, v.isStatic = false → FloatsOK F v.val)
+    (hdp : ∀ v ∈ vars, v.isStatic = false → saveVariable F v.val ≠ SaveOut.tooDeep)
     (hlay : live.map (·.name) = vars.map (·.name) ∧ live.map (·.isStatic) = vars.map (·.isStatic)) :
     ∃ res, restoreObject F mb true (some (saveFileText F prog z vars)) live = (1, RoOut.done res) ∧
       ObjRestoredNC F z vars live res :=
-  NV.C16.object_roundtrip_noclear F mb prog z vars live hprog hs hf hlay
+  NV.C16.object_roundtrip_noclear F mb prog z vars live hprog hs hf hdp hlay
 
 /-! ## bridging lemmas over the REGENERATED source facts (NV/Gen/C16.lean): a changed C line breaks these -/
 
@@ -226,5 +279,126 @@ theorem save_failure_leaves_no_tmp (chunks : List (List Nat)) (old : Option (Lis
 theorem save_success_leaves_no_tmp (chunks : List (List Nat)) (old : Option (List Nat)) :
     ((FS.mk old none).run (saveScript chunks none).1).tmp = none :=
   NV.C16.save_success_leaves_no_tmp chunks old
+
+/-- **save_object as a whole** (dry run over the variables, then the call script): whatever way it ends — the LPC error
+"nested too deep", a failure reported for any call, success — no temporary file is left behind.  (False before the
+two temporary-file fixes: header-write failure; too-deep error raised in the middle of writing = finding K7.) -/
+theorem saveObject_leaves_no_tmp (F : FloatOps α) (prog : List Nat) (z : Bool) (vars : List (Var α))
+    (fail : Option Nat) (old : Option (List Nat)) :
+    (saveObjectFS F prog z vars fail (FS.mk old none)).1.tmp = none :=
+  NV.C16.saveObject_leaves_no_tmp F prog z vars fail old
+
+/-- the LPC error of save_object is raised before its first file-system call: nothing has changed ... -/
+theorem saveObject_error_touches_nothing (F : FloatOps α) (prog : List Nat) (z : Bool) (vars : List (Var α))
+    (fail : Option Nat) (fs : FS) (h : (saveObjectFS F prog z vars fail fs).2 = none) :
+    (saveObjectFS F prog z vars fail fs).1 = fs :=
+  NV.C16.saveObject_error_touches_nothing F prog z vars fail fs h
+
+/-- ... and it is raised exactly when a non-static variable is nested deeper than MAX_SAVE_SVALUE_DEPTH -/
+theorem saveObject_error_iff_too_deep (F : FloatOps α) (prog : List Nat) (z : Bool) (vars : List (Var α))
+    (fail : Option Nat) (fs : FS) :
+    (saveObjectFS F prog z vars fail fs).2 = none ↔
+      ∃ v ∈ vars, v.isStatic = false ∧ saveVariable F v.val = SaveOut.tooDeep :=
+  NV.C16.saveObject_error_iff_too_deep F prog z vars fail fs
+
+/-- for EVERY path the temporary is `<first tmpPrefixMax bytes>.tmp` (the buffer never cuts the suffix) ... -/
+theorem tmpName_eq (file : List Nat) : tmpName file = file.take NV.Gen.C16.tmpPrefixMax ++ [46, 116, 109, 112] :=
+  NV.C16.tmpName_eq file
+
+/-- ... hence never the save file of ANY object (those end in the last byte of SAVE_EXTENSION): two objects whose long
+paths share a temporary cannot clobber a save file with it -/
+theorem tmpName_never_a_save_file (file g : List Nat) (hg : g.getLast? = some NV.Gen.C16.saveExt1) :
+    tmpName file ≠ g := NV.C16.tmpName_never_a_save_file file g hg
+
+/-- the error message of every ROB_* code is the one the source raises, in the order of its if-chain; restore_variable
+has NO branch for ROB_CLASS_ERROR (a damaged class yields 0 without an error — mirrored by `restoreVariable`) -/
+theorem error_messages_as_in_source :
+    NV.Gen.C16.restoreVariableMessages =
+      [("ROB_GENERAL_ERROR", errMsg .general), ("ROB_NUMERAL_ERROR", errMsg .numeral), ("ROB_ARRAY_ERROR", errMsg .array),
+       ("ROB_MAPPING_ERROR", errMsg .mapping), ("ROB_STRING_ERROR", errMsg .string)] ∧
+    NV.Gen.C16.restoreObjectMessages =
+      [("ROB_GENERAL_ERROR", errMsgVar .general [37, 115]), ("ROB_NUMERAL_ERROR", errMsgVar .numeral [37, 115]),
+       ("ROB_ARRAY_ERROR", errMsgVar .array [37, 115]), ("ROB_MAPPING_ERROR", errMsgVar .mapping [37, 115]),
+       ("ROB_STRING_ERROR", errMsgVar .string [37, 115]), ("ROB_CLASS_ERROR", errMsgVar .cls [37, 115])] := by
+  constructor <;> decide
+
+/-- the structure bytes of the three container kinds are the character literals `save_svalue` writes, in source order
+(`(` `{` element `,` `}` `)` NUL, ...) -/
+theorem save_structure_bytes_as_in_source (F : FloatOps α) :
+    save F (.arr (.cons .obj .nil)) ++ [0] = NV.Gen.C16.saveArrayLits ∧
+    save F (.cls (.cons .obj .nil)) ++ [0] = NV.Gen.C16.saveClassLits ∧
+    save F (.map (.cons .obj .obj .nil)) ++ [0] = NV.Gen.C16.saveMappingLits := by
+  refine ⟨?_, ?_, ?_⟩ <;> simp [save, saveElems, savePairs] <;> decide
+
+/-- the statements that carry the restore nesting limit and the dry run of save_object read as `preD` /
+`saveObjectScript` model them (REGENERATED by comparison with the source text): the test `nesting > MAX_SAVE_SVALUE_DEPTH`
+at the entry of restore_internal_size, `nesting + 1` in its three recursive calls, the literal restore_size passes
+(= level of the outermost container, 1 in `restoreContainer`, plus one); the dry run stands before `fopen`, advances the
+variable cursor, and the writing run follows the header -/
+theorem nesting_and_dry_run_sites_as_modelled :
+    NV.Gen.C16.nestingSitesAsModelled = true ∧ NV.Gen.C16.restoreSizeNestingArg = 1 + 1 ∧
+    NV.Gen.C16.dryRunSitesAsModelled = true := by decide
+
+/-! ### what the restore functions dispatch on -/
+
+/-- the model's dispatch of restore_array / restore_class (`rdElems`) accepts exactly these first characters ... -/
+theorem elem_dispatch_spec (c : Nat) : c ∈ [34, 44, 40, 45, 48, 49, 50, 51, 52, 53, 54, 55, 56, 57] ↔
+    (c = 34 ∨ c = 44 ∨ c = 40 ∨ numStart c = true) := by
+  simp [numStart, isDigit]; omega
+
+/-- ... of a key / of a value in restore_mapping (`rdMap`) ... -/
+theorem key_dispatch_spec (c : Nat) : c ∈ [34, 40, 58, 93, 45, 48, 49, 50, 51, 52, 53, 54, 55, 56, 57] ↔
+    (c = 93 ∨ c = 34 ∨ c = 40 ∨ c = 58 ∨ numStart c = true) := by
+  simp [numStart, isDigit]; omega
+
+theorem value_dispatch_spec (c : Nat) : c ∈ [34, 40, 45, 48, 49, 50, 51, 52, 53, 54, 55, 56, 57, 44] ↔
+    (c = 34 ∨ c = 40 ∨ c = 44 ∨ numStart c = true) := by
+  simp [numStart, isDigit]; omega
+
+/-- ... of restore_svalue / safe_restore_svalue (`restoreSvalue`; everything else is the value 0) -/
+theorem svalue_dispatch_spec (c : Nat) : c ∈ [34, 40, 45, 48, 49, 50, 51, 52, 53, 54, 55, 56, 57] ↔
+    (c = 34 ∨ c = 40 ∨ numStart c = true) := by
+  simp [numStart, isDigit]; omega
+
+/-- and these ARE the `case 'x':` labels of the switches in the source (REGENERATED, in source order), the nested
+containers being opened by `[`, `{`, `/` behind the `(` in all five functions -/
+theorem restore_dispatch_as_in_source :
+    NV.Gen.C16.restoreArrayCases = [34, 44, 40, 45, 48, 49, 50, 51, 52, 53, 54, 55, 56, 57] ∧
+    NV.Gen.C16.restoreClassCases = [34, 44, 40, 45, 48, 49, 50, 51, 52, 53, 54, 55, 56, 57] ∧
+    NV.Gen.C16.restoreMappingKeyCases = [34, 40, 58, 93, 45, 48, 49, 50, 51, 52, 53, 54, 55, 56, 57] ∧
+    NV.Gen.C16.restoreMappingValueCases = [34, 40, 45, 48, 49, 50, 51, 52, 53, 54, 55, 56, 57, 44] ∧
+    NV.Gen.C16.restoreSvalueCases = [34, 40, 45, 48, 49, 50, 51, 52, 53, 54, 55, 56, 57] ∧
+    NV.Gen.C16.safeRestoreSvalueCases = [34, 40, 45, 48, 49, 50, 51, 52, 53, 54, 55, 56, 57] ∧
+    NV.Gen.C16.restoreOpeners.all (fun l => l.all (fun b => b = 91 || b = 123 || b = 47) && [91, 123, 47].all l.contains) = true := by
+  decide
+
+/-! ## the hash table restore_mapping fills (Hash.lean): every restored pair can be looked up -/
+
+/-- **One pair of restore_mapping** (bucket `hash & mask`, duplicate test in the chain, `--unfilled`, growMap in the
+middle, re-derived bucket `if (oi & ++mask) elt2 = a[i |= mask]`): the table stays well-formed (a power of two of
+buckets, every node in the bucket its hash selects), the inserted key is found by node_find_in_mapping, no other key
+is lost — for EVERY hash function (string keys hash by address) and table size. -/
+theorem mapping_insert_spec {κ : Type} [DecidableEq κ] (h : κ → Nat) (t t' : Hash.Tbl κ) (k : κ)
+    (hw : Hash.WF h t) (hi : Hash.insert h t k = some t') :
+    Hash.WF h t' ∧ Hash.find h t' k = true ∧ ∀ k', Hash.find h t k' = true → Hash.find h t' k' = true :=
+  Hash.insert_spec h t t' k hw hi
+
+/-- **Every pair of a restored mapping is found through its key** (`m[key]`), whatever the keys, their order, their
+hashes, the initial table size and however often the table grows during the restore. -/
+theorem restore_mapping_all_found {κ : Type} [DecidableEq κ] (h : κ → Nat) (e : Nat) (ks : List κ) (t : Hash.Tbl κ)
+    (hi : Hash.insertAll h (Hash.empty e) ks = some t) : ∀ k ∈ ks, Hash.find h t k = true :=
+  Hash.restore_mapping_all_found h e ks t hi
+
+/-- the same starting from the table `allocate_mapping(n)` makes, for every `n`: the restored table is well-formed and
+every pair is found (this is the function the model driver runs against the real table of every restored integer-key
+mapping: `tbl` lines — size, `unfilled`, count, every chain in order) -/
+theorem restore_mapping_all_found_alloc {κ : Type} [DecidableEq κ] (h : κ → Nat) (n : Nat) (ks : List κ)
+    (t : Hash.Tbl κ) (hi : Hash.insertAll h (Hash.allocate n) ks = some t) :
+    Hash.WF h t ∧ ∀ k ∈ ks, Hash.find h t k = true :=
+  Hash.restore_mapping_all_found_alloc h n ks t hi
+
+/-- the statements of restore_mapping / growMap / node_find_in_mapping that Hash.lean mirrors still read that way
+(REGENERATED from the source text on every run) -/
+theorem hash_sites_as_modelled : NV.Gen.C16.hashSitesAsModelled = true := by decide
 
 end NV.C16.Props
